@@ -247,6 +247,11 @@ class Body:
             st.extend(t for (t, _) in self.succ[x] if (x, t) not in self.back)
         return False
 
+    def edge_reaches_acyclic(self, x, t, b):
+        """b reachable, without a back edge, by leaving x through its edge to t (which may itself be a back edge: `continue 'outer` jumping straight to
+        the outer loop's head starts another iteration, it does not reach what follows in this one)"""
+        return (x, t) not in self.back and self.reaches_acyclic(t, b)
+
     def can_return(self, bb):
         """some path from bb reaches the function's return (false for blocks that can only end in a panic / abort / endless loop)"""
         cr = getattr(self, "_can_return", None)
@@ -632,6 +637,13 @@ IDENTITY = {
     "std::iter::IntoIterator::into_iter",
     "core::slice::<impl [T]>::iter",
     "core::slice::<impl [T]>::iter_mut",
+    "std::collections::BTreeSet::<T, A>::iter",  # (what order a collection is walked in is a matter of the iterator's type: order.py)
+    "std::collections::BTreeMap::<K, V, A>::iter",
+    "std::collections::HashSet::<T, S>::iter",
+    "std::collections::HashSet::<T, S, A>::iter",
+    "std::collections::HashMap::<K, V, S>::iter",
+    "std::collections::HashMap::<K, V, S, A>::iter",
+    "std::collections::VecDeque::<T, A>::iter",
     "std::vec::Vec::<T, A>::as_slice",
     "std::string::String::as_bytes",
     "core::str::<impl str>::as_bytes",
